@@ -231,7 +231,15 @@ func (e *Enc) callStatic(fr *Frame, fn *ssa.Function, args []Val, bind []Val, gu
 		return rs
 	}
 	e.approximate("call " + fn.String())
-	e.havocAll(st, fn.String())
+	// an unknown callee can only change what it can reach from its arguments (by type) and globals
+	var argTypes []types.Type
+	for _, p := range fn.Params {
+		argTypes = append(argTypes, p.Type())
+	}
+	for _, fv := range fn.FreeVars {
+		argTypes = append(argTypes, fv.Type())
+	}
+	e.havocReach(st, argTypes, fn.String())
 	return e.freshResults(fn.Signature, hint)
 }
 
@@ -274,13 +282,15 @@ func (e *Enc) tryInline(fr *Frame, fn *ssa.Function, args []Val, guard T, st *St
 }
 
 func (e *Enc) autoInline(fn *ssa.Function, depth int) bool {
-	if e.contract != nil && e.contract.Opts["autoinline"] == "0" {
-		return false
-	}
 	if fn.Blocks == nil || depth > 4 {
 		return false
 	}
 	p := pkgPathOf(fn)
+	if e.contract != nil && e.contract.Opts["autoinline"] == "0" && strings.HasPrefix(p, "github.com/prometheus/prometheus") && len(e.inlineStack) == 0 {
+		// opt autoinline=0: callees in this module are not inlined (they are havoc unless under contract);
+		// atomics and math helpers still are
+		return false
+	}
 	ok := strings.HasPrefix(p, "github.com/prometheus/prometheus") || p == "sync/atomic" || p == "go.uber.org/atomic" || p == "math" || p == "math/bits" || p == "cmp"
 	if !ok {
 		return false
@@ -496,6 +506,25 @@ func (e *Enc) havocLvalue(sc *Scope, x CExpr, st *State) {
 			bx = n.(*CIndex).X
 		}
 		base := e.eval(sc, bx, nil)
+		if mt, isMap := base.Typ.Underlying().(*types.Map); isMap {
+			// m[..]: the contents of map m
+			e.st = st
+			dom, vals, ln, keys := e.mapHeaps(st, mt)
+			ks := e.mapKeySort(mt)
+			r := base.L[0]
+			st.H[keys[0]] = e.define(Store(dom, r, e.declare(ArrS(ks, BoolS), "mdom")), "Md")
+			sh := e.shape(mt.Elem())
+			for i := range vals {
+				st.H[keys[1+i]] = e.define(Store(vals[i], r, e.declare(ArrS(ks, sh[i].S), "mval")), "Mv")
+			}
+			nl := e.declare(e.idxSort(), "mlen")
+			e.assert(e.sle(IntLit64(nl.S, 0), nl))
+			st.H[keys[len(keys)-1]] = e.define(Store(ln, r, nl), "Ml")
+			for _, k := range keys {
+				e.markWrite(k)
+			}
+			return
+		}
 		sl, ok := base.Typ.Underlying().(*types.Slice)
 		if !ok {
 			panic(unsupported("modifies target not a slice: " + x.String()))
